@@ -191,15 +191,6 @@ package ggql
 //@   check panic {C03}
 //@   requires recv != nil
 
-//@ func inErr
-//@   props C03
-//@   check panic {C03}
-
-//@ func (*Input).reflectSetKey
-//@   props C03
-//@   check panic {C03}
-//@   requires recv != nil
-
 //@ func newInt64Scalar
 //@   props C03
 //@   check panic {C03}
